@@ -104,10 +104,16 @@ def main(argv):
             state["valid"] += 1
             if state["valid"] >= runs:
                 done()
-            if state["valid"] % 500 == 0:
+            if state["valid"] % 100 == 0:
                 result["fuzz_inputs"] = state["inputs"]
                 runner.finish(dict(result, partial=True), outfile)
+        elif state["inputs"] % 2000 == 0:
+            # a strategy for which most byte strings are no valid case: libFuzzer may use up its input budget (and end
+            # the process) long before the wanted number of cases was seen - what was seen until then stands
+            result["fuzz_inputs"] = state["inputs"]
+            runner.finish(dict(result, partial=True), outfile)
 
+    runner.finish(dict(result, partial=True, fuzz_inputs=0), outfile)  # (stands if libFuzzer ends the process early)
     atheris.Setup([sys.argv[0], f"-seed={seed % (2 ** 31) or 1}", "-max_len=4096", "-len_control=0", "-timeout=0",
                    f"-runs={runs * 40}", "-rss_limit_mb=4096", corpus], target)
     atheris.Fuzz()
